@@ -72,30 +72,170 @@ Proof.
 Qed.
 
 (* ------------------------------------------------------------------ *)
-(* C01: what the wrapper hands to the function *)
+(* the names the caller passes by keyword with the REQUIRED marker *)
 
-(* cfg_wf-free core: the applicable bindings minus the positionally supplied names *)
-Lemma prep_bindings_sget : forall cfg scope c args p, no_req args ->
-  sget p (prep_bindings cfg scope c args) =
-  if str_in p (supplied_positional_names (c_sig c) args) then None
-  else sget p (get_bindings_for cfg scope (c_sel c) true).
+Definition caller_req_kw (kwargs : pdict) : list string :=
+  map fst (filter (fun kv => is_req (snd kv)) kwargs).
+
+Lemma caller_req_kw_in : forall kwargs p, In (p, VReq) kwargs -> In p (caller_req_kw kwargs).
 Proof.
-  intros cfg scope c args p Hnr. unfold prep_bindings.
-  rewrite required_positions_no_req by exact Hnr.
-  rewrite drop_names_spec by apply gbf_nodup.
-  rewrite str_in_nil. simpl. rewrite andb_true_r. reflexivity.
+  intros kwargs p H. unfold caller_req_kw.
+  change p with (fst (p, VReq)). apply in_map. apply filter_In. split; [exact H|reflexivity].
 Qed.
 
-Theorem prep_bindings_spec : forall cfg scope c args p, cfg_wf cfg -> no_req args ->
-  sget p (prep_bindings cfg scope c args) =
-  if str_in p (supplied_positional_names (c_sig c) args) then None else overlay_spec cfg scope (c_sel c) p.
+Lemma caller_req_kw_no_req : forall kwargs, no_req_kw kwargs -> caller_req_kw kwargs = [].
 Proof.
-  intros cfg scope c args p Hwf Hnr. rewrite prep_bindings_sget by exact Hnr.
+  intros kwargs H. unfold caller_req_kw. rewrite filter_all_false; [reflexivity|].
+  intros x Hx. unfold no_req_kw in H. rewrite Forall_forall in H. apply H; exact Hx.
+Qed.
+
+Lemma caller_req_kw_inv : forall kwargs p, In p (caller_req_kw kwargs) -> In (p, VReq) kwargs.
+Proof.
+  intros kwargs p H. unfold caller_req_kw in H. apply in_map_iff in H.
+  destruct H as [[k w] [E H]]. simpl in E; subst k. apply filter_In in H. destruct H as [H Hr].
+  simpl in Hr. apply is_req_true in Hr. subst w. exact H.
+Qed.
+
+Lemma smem_str_in : forall {V} p (d : list (string * V)), smem p d = str_in p (map fst d).
+Proof.
+  intros V p d. rewrite smem_sget. destruct (sget p d) eqn:E.
+  - symmetry. apply str_in_iff. eapply sget_some_key; eauto.
+  - symmetry. apply str_in_false_iff. apply sget_none_iff. exact E.
+Qed.
+
+Lemma required_positions_in_names : forall names args p, In p (required_positions names args) -> In p names.
+Proof.
+  intros names; induction names as [|n ns IH]; intros args p H; [inversion H|].
+  destruct args as [|a r]; [inversion H|].
+  cbn [required_positions] in H. apply in_app_or in H. destruct H as [H|H].
+  - destruct (is_req a); [|inversion H]. destruct H as [H|[]]. left; exact H.
+  - right. eapply IH; eauto.
+Qed.
+
+(* a name at a position where the caller passes a non-REQUIRED value is not a required position *)
+Lemma required_positions_notin : forall names args i p a, NoDup names ->
+  nth_error names i = Some p -> nth_error args i = Some a -> is_req a = false ->
+  ~ In p (required_positions names args).
+Proof.
+  intros names; induction names as [|n ns IH]; intros args i p a Hnd H1 H2 Ha Hin.
+  - rewrite nth_error_nil in H1. discriminate.
+  - destruct args as [|a0 r]; [rewrite nth_error_nil in H2; discriminate|].
+    inversion Hnd as [|x l Hna Hnd']; subst.
+    cbn [required_positions] in Hin. apply in_app_or in Hin. destruct i as [|i].
+    + simpl in H1, H2. inversion H1; inversion H2; subst. rewrite Ha in Hin.
+      destruct Hin as [[]|Hin]. apply Hna. eapply required_positions_in_names; eauto.
+    + simpl in H1, H2. destruct Hin as [Hin|Hin].
+      * destruct (is_req a0); [|inversion Hin]. destruct Hin as [Hin|[]]. subst p.
+        apply Hna. eapply nth_error_In; eauto.
+      * eapply IH; eauto.
+Qed.
+
+Lemma nodup_firstn : forall {A} n (l : list A), NoDup l -> NoDup (firstn n l).
+Proof.
+  intros A n l H. rewrite <- (firstn_skipn n l) in H. eapply nodup_app_l; eauto.
+Qed.
+
+(* ------------------------------------------------------------------ *)
+(* C01: what the wrapper hands to the function *)
+
+(* the applicable bindings minus the names the caller supplies, with no
+   assumption at all on cfg, args or kwargs *)
+Lemma prep_bindings_sget_gen : forall cfg scope c args kwargs p,
+  sget p (prep_bindings cfg scope c args kwargs) =
+  if str_in p (map fst kwargs) && negb (str_in p (caller_req_kw kwargs)) then None
+  else if str_in p (supplied_positional_names (c_sig c) args)
+          && negb (str_in p (required_positions (supplied_positional_names (c_sig c) args) args)) then None
+  else sget p (get_bindings_for cfg scope (c_sel c) true).
+Proof.
+  intros cfg scope c args kwargs p. unfold prep_bindings. fold (caller_req_kw kwargs).
+  rewrite drop_names_spec by (apply drop_names_nodup; apply gbf_nodup).
+  rewrite drop_names_spec by apply gbf_nodup. reflexivity.
+Qed.
+
+(* cfg_wf-free core *)
+Lemma prep_bindings_sget : forall cfg scope c args kwargs p, no_req args -> no_req_kw kwargs ->
+  sget p (prep_bindings cfg scope c args kwargs) =
+  if str_in p (supplied_positional_names (c_sig c) args) || smem p kwargs then None
+  else sget p (get_bindings_for cfg scope (c_sel c) true).
+Proof.
+  intros cfg scope c args kwargs p Hnr Hnk. rewrite prep_bindings_sget_gen.
+  rewrite required_positions_no_req by exact Hnr.
+  rewrite caller_req_kw_no_req by exact Hnk.
+  rewrite str_in_nil, smem_str_in. simpl. rewrite !andb_true_r.
+  destruct (str_in p (map fst kwargs)); [rewrite orb_true_r; reflexivity|].
+  rewrite orb_false_r. reflexivity.
+Qed.
+
+Theorem prep_bindings_spec : forall cfg scope c args kwargs p, cfg_wf cfg -> no_req args -> no_req_kw kwargs ->
+  sget p (prep_bindings cfg scope c args kwargs) =
+  if str_in p (supplied_positional_names (c_sig c) args) || smem p kwargs then None
+  else overlay_spec cfg scope (c_sel c) p.
+Proof.
+  intros cfg scope c args kwargs p Hwf Hnr Hnk. rewrite prep_bindings_sget by assumption.
   rewrite overlay_correct by exact Hwf. reflexivity.
 Qed.
 
-Lemma prep_bindings_nodup : forall cfg scope c args, NoDup (map fst (prep_bindings cfg scope c args)).
-Proof. intros. unfold prep_bindings. apply drop_names_nodup. apply gbf_nodup. Qed.
+Lemma prep_bindings_nodup : forall cfg scope c args kwargs,
+  NoDup (map fst (prep_bindings cfg scope c args kwargs)).
+Proof. intros. unfold prep_bindings. apply drop_names_nodup. apply drop_names_nodup. apply gbf_nodup. Qed.
+
+(* ------------------------------------------------------------------ *)
+(* C04: a binding the caller overrides is not among the bindings that get
+   deep-copied (= evaluated) *)
+
+(* general form: p is a caller keyword and none of its occurrences carries REQUIRED *)
+Lemma prep_bindings_kw_dropped : forall cfg scope c args kwargs p,
+  In p (map fst kwargs) -> (forall w, In (p, w) kwargs -> is_req w = false) ->
+  sget p (prep_bindings cfg scope c args kwargs) = None.
+Proof.
+  intros cfg scope c args kwargs p Hin Hnr. rewrite prep_bindings_sget_gen.
+  apply str_in_iff in Hin. rewrite Hin.
+  assert (Hc : str_in p (caller_req_kw kwargs) = false).
+  { apply str_in_false_iff. intros Hc. apply caller_req_kw_inv in Hc. apply Hnr in Hc. discriminate. }
+  rewrite Hc. reflexivity.
+Qed.
+
+Theorem C04_keyword_override_not_evaluated : forall cfg scope c args kwargs p v,
+  sget p kwargs = Some v -> is_req v = false -> keys_nodup kwargs ->
+  sget p (prep_bindings cfg scope c args kwargs) = None.
+Proof.
+  intros cfg scope c args kwargs p v Hp Hv Hnd. apply prep_bindings_kw_dropped.
+  - eapply sget_some_key; eauto.
+  - intros w Hw. apply (in_sget_nodup p kwargs w Hnd) in Hw. congruence.
+Qed.
+
+Theorem C04_positional_override_not_evaluated : forall cfg scope c args kwargs i p a,
+  NoDup (s_args (c_sig c)) -> nth_error (s_args (c_sig c)) i = Some p -> nth_error args i = Some a ->
+  is_req a = false -> sget p (prep_bindings cfg scope c args kwargs) = None.
+Proof.
+  intros cfg scope c args kwargs i p a Hnd H1 H2 Ha. rewrite prep_bindings_sget_gen.
+  destruct (str_in p (map fst kwargs) && negb (str_in p (caller_req_kw kwargs))); [reflexivity|].
+  assert (Hi : i < List.length args) by (apply nth_error_Some; congruence).
+  assert (Hn : nth_error (supplied_positional_names (c_sig c) args) i = Some p).
+  { unfold supplied_positional_names. rewrite nth_error_firstn_lt by exact Hi. exact H1. }
+  assert (Hs : str_in p (supplied_positional_names (c_sig c) args) = true).
+  { apply str_in_iff. eapply nth_error_In; eauto. }
+  assert (Hr : str_in p (required_positions (supplied_positional_names (c_sig c) args) args) = false).
+  { apply str_in_false_iff. eapply required_positions_notin; eauto.
+    unfold supplied_positional_names. apply nodup_firstn; exact Hnd. }
+  rewrite Hs, Hr. reflexivity.
+Qed.
+
+(* the code before the repair kept (and so evaluated) the binding of a
+   parameter the caller overrides by keyword *)
+Theorem C04_orig_keyword_refuted :
+  exists (cfg : cdict) (scope : list string) (c : cfgable) (kwargs : pdict) (p : string) (v : value),
+  sget p kwargs = Some v /\ is_req v = false /\
+  exists b, sget p (prep_bindings_orig cfg scope c []) = Some b.
+Proof.
+  exists [(("", "f"), [("a", VRef [] "n.g" true)])], [],
+    {| c_sel := "f"; c_kind := KProbe;
+       c_sig := {| s_args := ["a"]; s_defaults := []; s_varargs := false; s_kwonly := []; s_varkw := false |};
+       c_allow := []; c_deny := []; c_method := false |},
+    [("a", VInt 5)], "a", (VInt 5).
+  split; [reflexivity|]. split; [reflexivity|].
+  exists (VRef [] "n.g" true). vm_compute. reflexivity.
+Qed.
 
 (* ------------------------------------------------------------------ *)
 (* fill_required *)
@@ -287,8 +427,6 @@ Qed.
 (* ------------------------------------------------------------------ *)
 (* merge_call, unfolded once and for all *)
 
-Definition caller_req_kw (kwargs : pdict) : list string :=
-  map fst (filter (fun kv => is_req (snd kv)) kwargs).
 Definition miss2_of (c : cfgable) (args : list value) (kwargs nk' : pdict) : list string :=
   filter (fun r => negb (str_in r (supplied_positional_names (c_sig c) args))
                    && negb (smem r kwargs) && negb (smem r nk'))
@@ -309,18 +447,6 @@ Proof.
   intros c args kwargs nk na nk' miss1 H. unfold merge_call. rewrite H.
   unfold miss2_of, miss3_of, kwargs_kept, caller_req_kw.
   destruct (miss1 ++ _ ++ _); reflexivity.
-Qed.
-
-Lemma caller_req_kw_in : forall kwargs p, In (p, VReq) kwargs -> In p (caller_req_kw kwargs).
-Proof.
-  intros kwargs p H. unfold caller_req_kw.
-  change p with (fst (p, VReq)). apply in_map. apply filter_In. split; [exact H|reflexivity].
-Qed.
-
-Lemma caller_req_kw_no_req : forall kwargs, no_req_kw kwargs -> caller_req_kw kwargs = [].
-Proof.
-  intros kwargs H. unfold caller_req_kw. rewrite filter_all_false; [reflexivity|].
-  intros x Hx. unfold no_req_kw in H. rewrite Forall_forall in H. apply H; exact Hx.
 Qed.
 
 (* when the caller passes no REQUIRED marker, merge_call returns the caller's
@@ -351,15 +477,19 @@ Proof.
 Qed.
 
 (* a name the caller passed positionally is a keyword of the final call only if
-   the caller ALSO passed it by keyword (cfg_wf is not needed) *)
+   the caller ALSO passed it by keyword (neither cfg_wf nor no_req_kw is needed) *)
 Theorem no_gin_multiple_values : forall c cfg scope args kwargs k, no_req args ->
-  smem k (supdate (prep_bindings cfg scope c args) kwargs) = true ->
+  smem k (supdate (prep_bindings cfg scope c args kwargs) kwargs) = true ->
   str_in k (supplied_positional_names (c_sig c) args) = true -> smem k kwargs = true.
 Proof.
   intros c cfg scope args kwargs k Ha Hm Hs.
-  rewrite smem_sget, sget_supdate, prep_bindings_sget, Hs in Hm by exact Ha.
-  rewrite smem_sget. destruct (sget k kwargs) eqn:E; [reflexivity|].
-  apply sget_last_none_sget in E. rewrite E in Hm. discriminate.
+  rewrite smem_sget. destruct (sget k kwargs) eqn:E; [reflexivity|]. exfalso.
+  rewrite smem_sget, sget_supdate in Hm.
+  rewrite (proj2 (sget_last_none_sget k kwargs) E) in Hm.
+  rewrite prep_bindings_sget_gen in Hm.
+  assert (Hk : str_in k (map fst kwargs) = false).
+  { apply str_in_false_iff. apply sget_none_iff. exact E. }
+  rewrite Hk, Hs, required_positions_no_req in Hm by exact Ha. simpl in Hm. discriminate.
 Qed.
 
 (* ------------------------------------------------------------------ *)
@@ -701,7 +831,7 @@ Qed.
 Theorem C01_injection : forall c cfg scope args kwargs nk env p,
   let sg := c_sig c in
   sig_wf sg -> cfg_wf cfg -> keys_nodup kwargs -> no_req args -> no_req_kw kwargs -> signature_required c = [] ->
-  map fst nk = map fst (prep_bindings cfg scope c args) ->
+  map fst nk = map fst (prep_bindings cfg scope c args kwargs) ->
   merge_call c args kwargs nk = Ok (args, supdate nk kwargs) /\
   (py_bind sg args (supdate nk kwargs) = Some env -> named sg p ->
      (forall i v, nth_error (s_args sg) i = Some p -> nth_error args i = Some v -> sget p env = Some v) /\
@@ -721,8 +851,8 @@ Proof.
       rewrite sget_supdate_nodup by exact Hkw. rewrite Hnone. exact Hv.
     + intros Ho. eapply py_bind_default; eauto.
       rewrite sget_supdate_nodup by exact Hkw. rewrite Hnone.
-      apply (sget_keys_none (prep_bindings cfg scope c args) nk p (eq_sym Hkeys)).
-      rewrite prep_bindings_spec by assumption. fold sg. rewrite Hs. exact Ho.
+      apply (sget_keys_none (prep_bindings cfg scope c args kwargs) nk p (eq_sym Hkeys)).
+      rewrite prep_bindings_spec by assumption. fold sg. rewrite Hs, smem_sget, Hnone. exact Ho.
 Qed.
 
 Print Assumptions overlay_correct.
@@ -731,6 +861,9 @@ Print Assumptions non_prefix_never_applies.
 Print Assumptions prep_bindings_spec.
 Print Assumptions merge_call_no_marker.
 Print Assumptions C01_injection.
+Print Assumptions C04_keyword_override_not_evaluated.
+Print Assumptions C04_positional_override_not_evaluated.
+Print Assumptions C04_orig_keyword_refuted.
 Print Assumptions fill_required_missing.
 Print Assumptions C10_never_leaks.
 Print Assumptions C10_missing_raises.
